@@ -146,11 +146,27 @@ def run(ctx: Any, prog: Program) -> None:
                         and qual.startswith('IDMan')
                     why = 'must be set to the returned id + 1'
                 else:
-                    p = vm.parents.get(n)
-                    tsrc = U(p.test).replace(' ', '') if isinstance(p, ast.If) else ''
                     vn = v.id if isinstance(v, ast.Name) else '?'
-                    below = tsrc in (f'{vn}<self.search_pos', f'0<{vn}<self.search_pos', f'1<={vn}<self.search_pos', f'{vn}>0and{vn}<self.search_pos', f'{vn}>=1and{vn}<self.search_pos')
-                    positive = tsrc != f'{vn}<self.search_pos' or any(isinstance(c, ast.Call) and isinstance(c.func, ast.Attribute) and c.func.attr == 'remove' and dotted(c.func.value) == 'self._used'
+                    # what the enclosing tests (in whatever nesting / chaining) establish about the value: below search_pos, positive
+                    facts_: Set[str] = set()
+                    ch_: ast.AST = n
+                    an_ = vm.parents.get(ch_)
+                    while an_ is not None and an_ is not fn:
+                        if isinstance(an_, ast.If) and any(ch_ is b_ for b_ in an_.body):
+                            for cj_ in (an_.test.values if isinstance(an_.test, ast.BoolOp) and isinstance(an_.test.op, ast.And) else [an_.test]):
+                                if isinstance(cj_, ast.Compare):
+                                    seq_ = [cj_.left] + list(cj_.comparators)
+                                    for i_, op_ in enumerate(cj_.ops):
+                                        l_, r_ = seq_[i_], seq_[i_ + 1]
+                                        ls_, rs_ = (dotted(l_) or U(l_)), (dotted(r_) or U(r_))
+                                        if (isinstance(op_, ast.Lt) and ls_ == vn and rs_ == 'self.search_pos') or (isinstance(op_, ast.Gt) and ls_ == 'self.search_pos' and rs_ == vn):
+                                            facts_.add('below')
+                                        if (isinstance(op_, ast.Lt) and ls_ == '0' and rs_ == vn) or (isinstance(op_, ast.Gt) and ls_ == vn and rs_ == '0') \
+                                                or (isinstance(op_, ast.LtE) and ls_ == '1' and rs_ == vn) or (isinstance(op_, ast.GtE) and ls_ == vn and rs_ == '1'):
+                                            facts_.add('positive')
+                        ch_, an_ = an_, vm.parents.get(an_)
+                    below = 'below' in facts_
+                    positive = 'positive' in facts_ or any(isinstance(c, ast.Call) and isinstance(c.func, ast.Attribute) and c.func.attr == 'remove' and dotted(c.func.value) == 'self._used'
                                                                      and c.args and dotted(c.args[0]) == vn and c.lineno < n.lineno for c in ast.walk(fn))
                     ok = isinstance(v, ast.Name) and below and positive
                     why = 'may only be lowered to a released id that is below it' if not below else \
